@@ -29,12 +29,12 @@ macro:max "c!" s:str : term => do
     `__init__.py` files included), every emit kind list, recursion flag, blacklist/whitelist, `--emit-sqlalchemy-submodule`. -/
 theorem dry_run_pure (cfg : Cfg) (env : Env) (fs : FS) (h : cfg.dryRun = true) :
     ∀ e ∈ trace cfg env fs, e.isPrint = true :=
-  (dry_exmodCli (I := fun _ => True) cfg env h).trace fs trivial
+  ((dry_exmodCli (OK := fun _ => True) (I := fun _ => True) cfg env h) fs trivial (fun _ _ => trivial)).1
 
 /-- same clause, on the state: when a dry run returns, the file system of the model is the one it started from -/
 theorem dry_run_fs_unchanged (cfg : Cfg) (env : Env) (fs : FS) (h : cfg.dryRun = true) (hr : (run cfg env fs).val = .ok ()) :
     (run cfg env fs).fs = fs :=
-  ((dry_exmodCli (I := fun fs' => fs' = fs) cfg env h) fs rfl).2 () hr
+  ((dry_exmodCli (OK := fun _ => True) (I := fun fs' => fs' = fs) cfg env h) fs rfl (fun _ _ => trivial)).2 () hr
 
 /-- no effect of a dry run has a target path at all -/
 theorem dry_run_no_target (cfg : Cfg) (env : Env) (fs : FS) (h : cfg.dryRun = true) :
